@@ -569,6 +569,10 @@ func (c *Conn) writeOut(fr *FrameHeader) {
 
 var ErrStreamNotReady = errors.New("stream hasn't been created")
 
+// ErrGoAway is the result of a request on a stream above the last-stream-id of
+// the server's GOAWAY: the server has said it did not and will not process it.
+var ErrGoAway = errors.New("server is going away and did not process the request")
+
 // ErrNoMoreStreamIDs is returned once a connection has used up the stream
 // identifier space. The connection stays usable for the streams already on it,
 // but no new request can be started: the caller needs a new connection.
@@ -833,7 +837,7 @@ func (c *Conn) dispatch(fr *FrameHeader) bool {
 			c.consumeConnWindow(fr.Len())
 		}
 
-		return false
+		return c.goAwayDone()
 	}
 
 	// A canceled or finished request has taken its Response back, so there is
@@ -865,7 +869,50 @@ func (c *Conn) dispatch(fr *FrameHeader) bool {
 		return true
 	}
 
-	return c.state == connStateClosed && fr.Stream() == c.closeRef
+	return c.goAwayDone()
+}
+
+// goAwayDone reports whether the server has said GOAWAY and every request it
+// promised to finish (the ones at or below its last-stream-id) has finished,
+// which is when the read loop has nothing left to wait for.
+func (c *Conn) goAwayDone() bool {
+	if c.state != connStateClosed {
+		return false
+	}
+
+	c.reqLck.Lock()
+	defer c.reqLck.Unlock()
+
+	for id := range c.reqQueued {
+		if id <= c.closeRef {
+			return false
+		}
+	}
+
+	return true
+}
+
+// disclaim ends the requests the server will not process, the ones above the
+// last-stream-id of its GOAWAY. They never reached a handler, so they are safe
+// to send again on another connection.
+func (c *Conn) disclaim(last uint32) {
+	c.reqLck.Lock()
+
+	var ids []uint32
+
+	for id := range c.reqQueued {
+		if id > last {
+			ids = append(ids, id)
+		}
+	}
+
+	c.reqLck.Unlock()
+
+	for _, id := range ids {
+		if r, ok := c.loadReq(id); ok {
+			c.finish(r, id, ErrGoAway)
+		}
+	}
 }
 
 func (c *Conn) writeRequest(ctx *Ctx) error {
@@ -1372,6 +1419,8 @@ loop:
 				// wait for the streams to complete
 				c.closeRef = ga.stream
 				c.state = connStateClosed
+
+				c.disclaim(ga.stream)
 			}
 
 			break loop
